@@ -25,6 +25,7 @@ type cases struct {
 	r      *corr.Run
 	w      *world
 	env    *env
+	envs   []*env
 	envUse int
 	slots  map[string]int
 	nvid   int
@@ -114,14 +115,13 @@ type sut struct {
 func (c *cases) newSut(owner *device) *sut {
 	c.envUse++
 	if c.env == nil || c.envUse > 400 {
-		if c.env != nil {
-			c.env.close()
-		}
+		// older environments stay open until the end of the run: stores of the current case may live in them
 		e, err := newEnv()
 		if err != nil {
 			c.r.Fatal("env: " + err.Error())
 		}
 		c.env, c.envUse = e, 0
+		c.envs = append(c.envs, e)
 	}
 	st, err := c.env.newStore(c.w, owner)
 	if err != nil {
